@@ -113,6 +113,7 @@ func runC02(c *Ctx) {
 		switch {
 		case r.Panic != nil:
 			c.R.Count("panics", 1)
+			c.R.Fail("panic:"+r.PanicAt, fmt.Sprintf("%s: calculation panicked: %v", origin, r.Panic), map[string]any{"origin": origin, "input": json.RawMessage(in)})
 			return false
 		case r.CalcErr != nil:
 			c.R.Count("calculation_refused", 1)
@@ -235,4 +236,5 @@ func runC02(c *Ctx) {
 	for _, k := range keys {
 		c.R.Count(k, tot[k])
 	}
+	c.Require("documents", "rate_rows", "feature:surcharge", "feature:retained", "feature:ext-qualified", "included_only_documents")
 }
